@@ -26,7 +26,12 @@ def proved_tier(run, pid, cfg, tier, collect=None):
     items = []
     for modname, key, include, exclude in cfg.get('pyvc', ()):
         items.append((key, importlib.import_module(modname).CONTRACTS[key], include, exclude))
-    results = pv.verify_many(items, timeout_s=timeout) if items else {}
+    def known_open(name):
+        # obligations covered by a listed known finding are expected to stay open: no escalation budget is spent on them
+        key, rest = name.split('/', 1)
+        c = clause_of(name)
+        return run._match_known('%s/%s' % (key.split('#')[0], c.split('/', 1)[1] if '/' in c else c)) is not None
+    results = pv.verify_many(items, timeout_s=timeout, known_open=known_open) if items else {}
     for modname, key, include, exclude in cfg.get('pyvc', ()):
         contract = importlib.import_module(modname).CONTRACTS[key]
         obls, info = results[key]
